@@ -1,8 +1,10 @@
 package props
 
 import (
+	"bytes"
 	"encoding/binary"
 	"fmt"
+	"sync/atomic"
 
 	proto "github.com/kubewharf/kubebrain-client/api/v2rpc"
 
@@ -20,12 +22,24 @@ func init() {
 		Plan: func(tier string) Plan {
 			return Plan{Level: "exploration", NCases: pick(tier, 200, 30000), Batch: 4, CaseTimeout: 120,
 				Rule: "one case = a PRNG sequence of 6-20 compaction requests (increasing, repeated, decreasing, 0, above current) interleaved with writes on one engine (every 8th case over 650-950 additional keys, several 300-kv stream batches); after each accepted compaction the monitor raises floor=max(floor, effective revision from the response header), reads the stored compaction record, and issues List / ListByStream at revisions around every past floor and Count at latest, on the compacting node and on a second node over the same store (which adopts the first node's read revision as a follower does). " +
+					"Every 8th case is instead two OVERLAPPING requests: Compact(low) is held at its 1st-3rd read of / write to the compaction record (hook in the storage wrapper), Compact(high) runs to completion, then the first continues; the record must not end below the highest accepted effective revision and reads below it must be refused. " +
 					"non-trivial = sequence containing >=1 request naming an older revision than an earlier accepted one and >=1 read refused below the floor; distinct by (engine, request vector)",
 				Assumptions: []string{"only compactions that returned without error raise the monitor's floor"},
 				MinConcl:    pick(tier, 150, 25000)}
 		},
-		Name: func(c *harness.Case) string { return "compact-seq-" + c08Engines[c.Index%len(c08Engines)] },
-		Run:  runC08,
+		Name: func(c *harness.Case) string {
+			if c.Index%8 == 3 {
+				return "overlapping-compactions"
+			}
+			return "compact-seq-" + c08Engines[c.Index%len(c08Engines)]
+		},
+		Run: func(c *harness.Case) {
+			if c.Index%8 == 3 {
+				runC08Overlap(c)
+				return
+			}
+			runC08(c)
+		},
 	}
 }
 
@@ -218,6 +232,161 @@ func runC08(c *harness.Case) {
 	c.AddSet("engines", kind)
 	c.Fingerprint(sawLower && sawRefused, kind, vec)
 	if c.Index < 4 {
+		c.R.Sample = wit()
+	}
+}
+
+// runC08Overlap: two compaction requests overlap (the leader's own compaction loop, a client's Compact, the
+// apiserver's compactor - nothing serialises them). Request A = Compact(low) is held at one of its accesses to the
+// compaction record (after a read of it, or right before a write of it - a descheduled goroutine), request
+// B = Compact(high) runs to completion meanwhile, then A continues. Whatever A still does, the record must not end
+// below the highest revision an accepted request reported, and reads below it must be refused.
+func runC08Overlap(c *harness.Case) {
+	r := c.Rng
+	kind := []string{"memkv", "tikv", "badger"}[(c.Index/8)%3]
+	eng, err := harness.NewEngine(kind)
+	if err != nil {
+		c.Inconclusive(err.Error())
+		return
+	}
+	defer eng.Close()
+	w := harness.NewWrap(eng.KV)
+	cfg := backend.Config{EnableEtcdCompatibility: true}
+	if r.Intn(2) == 0 {
+		cfg.SkippedPrefixes = []string{harness.Prefix + "/skip"} // several compaction ranges, i.e. several scanner passes per request
+	}
+	n := harness.NewNode(harness.NodeOpts{KV: w, Config: cfg})
+	defer n.Retire()
+	m := harness.NewModel()
+	var hist []string
+	wit := func() interface{} { return map[string]interface{}{"engine": kind, "history": hist} }
+	keys := []string{"/a", "/b", "/c/d", "/skip/s"}
+	for i := 0; i < 20+r.Intn(30); i++ {
+		k := harness.Prefix + keys[r.Intn(len(keys))]
+		var op harness.SeqOp
+		live := m.Live(k)
+		switch {
+		case live == nil:
+			op = harness.SeqOp{Kind: "create", Key: k, Val: []byte(fmt.Sprintf("v%d", i))}
+		case r.Intn(4) == 0:
+			op = harness.SeqOp{Kind: "delete", Key: k, Exp: live.Rev}
+		default:
+			op = harness.SeqOp{Kind: "update", Key: k, Val: []byte(fmt.Sprintf("v%d", i)), Exp: live.Rev}
+		}
+		out, mis := n.ApplyChecked(m, op)
+		hist = append(hist, op.String()+" -> "+out.String())
+		if mis != "" {
+			c.Inconclusive("write misbehaved during set-up: " + mis)
+			return
+		}
+	}
+	cur := n.Committed()
+	low := n.Start + 2 + uint64(r.Int63n(int64(cur-n.Start-4)))
+	high := low + 1 + uint64(r.Int63n(int64(cur-low)))
+	compactKey := []byte(harness.Prefix + "/compact_key")
+	// hold A at its k-th access of the given kind to the compaction record
+	holdKind := []string{"after-read", "before-write"}[r.Intn(2)]
+	holdAt := int32(1 + r.Intn(3))
+	var seen int32
+	var armed int32 = 1
+	held := make(chan struct{})
+	release := make(chan struct{})
+	hold := func() {
+		if atomic.LoadInt32(&armed) == 1 && atomic.AddInt32(&seen, 1) == holdAt && atomic.CompareAndSwapInt32(&armed, 1, 0) {
+			close(held)
+			<-release
+		}
+	}
+	w.AfterGet = func(key, val []byte, gerr error) {
+		if holdKind == "after-read" && bytes.Equal(key, compactKey) {
+			hold()
+		}
+	}
+	w.BeforeCommit = func(b *harness.BatchInfo) {
+		if holdKind == "before-write" {
+			for _, op := range b.Ops {
+				if bytes.Equal(op.Key, compactKey) {
+					hold()
+					return
+				}
+			}
+		}
+	}
+	type ans struct {
+		rev uint64
+		err error
+	}
+	aDone := make(chan ans, 1)
+	go func() {
+		resp, cerr := n.B.Compact(harness.Ctx, low)
+		a := ans{err: cerr}
+		if cerr == nil {
+			a.rev = resp.Header.GetRevision()
+		}
+		aDone <- a
+	}()
+	placed := false
+	var aAns ans
+	select {
+	case <-held:
+		placed = true
+	case aAns = <-aDone:
+		atomic.StoreInt32(&armed, 0) // A made fewer such accesses: no overlap, the sequential order A then B is checked
+		aDone <- aAns
+	}
+	respB, errB := n.B.Compact(harness.Ctx, high)
+	if placed {
+		close(release)
+	}
+	aAns = <-aDone
+	w.AfterGet, w.BeforeCommit = nil, nil
+	hist = append(hist, fmt.Sprintf("Compact(%d) [held %s #%d of the compaction record: %v] -> (%d, %v)   overlapped by   Compact(%d) -> (%v, %v)", low, holdKind, holdAt, placed, aAns.rev, aAns.err, high, respB.GetHeader().GetRevision(), errB))
+	var floor uint64
+	if aAns.err == nil && aAns.rev > floor {
+		floor = aAns.rev
+	}
+	if errB == nil && respB.Header.GetRevision() > floor {
+		floor = respB.Header.GetRevision()
+	}
+	if floor == 0 {
+		c.Inconclusive("both compaction requests failed")
+		return
+	}
+	val, gerr := eng.KV.Get(harness.Ctx, compactKey)
+	if gerr != nil || len(val) != 8 {
+		c.Violatef("C08 compaction-record-unreadable", wit(), "after accepted compactions the record is (%x, %v)", val, gerr)
+		return
+	}
+	if rec := binary.BigEndian.Uint64(val); rec < floor {
+		c.Violatef("C08 compaction-record-lowered overlapping-compactions held="+holdKind, wit(), "two overlapping compaction requests were accepted with effective revisions up to %d, the stored compaction record ends at %d", floor, rec)
+		return
+	}
+	full := harness.Prefix + "/"
+	fullEnd := string(backend.PrefixEnd([]byte(full)))
+	for _, R := range []uint64{floor - 1, low, floor, n.Committed()} {
+		if R <= n.Start {
+			continue
+		}
+		lr, lerr := n.List(full, fullEnd, R, 0)
+		switch {
+		case R < floor && lerr == nil:
+			c.Violatef("C08 range-read-below-floor-served overlapping-compactions", wit(), "List at revision %d returned %d kvs although a compaction at %d had been accepted", R, len(lr.Kvs), floor)
+			return
+		case R >= floor && lerr != nil:
+			c.Violatef("C08 range-read-at-or-above-floor-refused overlapping-compactions", wit(), "List at revision %d (floor %d) failed: %v", R, floor, lerr)
+			return
+		case R >= floor && !sameKVs(m.Snapshot(full, fullEnd, R), lr.Kvs):
+			c.Violatef("C08 range-read-above-floor-differs overlapping-compactions", wit(), "List at revision %d (floor %d) = %s; snapshot %s", R, floor, kvStr(lr.Kvs), mkvStr(m.Snapshot(full, fullEnd, R)))
+			return
+		}
+	}
+	if placed {
+		c.Stat("overlapping_compactions_placed", 1)
+	}
+	c.AddSet("engines", kind)
+	c.AddSet("overlap_hold_points", fmt.Sprintf("%s#%d", holdKind, holdAt))
+	c.Fingerprint(placed, "overlap", kind, holdKind, holdAt, c.Index)
+	if c.Index < 24 {
 		c.R.Sample = wit()
 	}
 }
